@@ -518,7 +518,7 @@ func (h *Host) code(loc common.AddressLocation) []byte {
 func (h *Host) contractNames(a common.Address) []string {
 	set := map[string]bool{}
 	for l := range h.W.Codes {
-		if l.Address == a {
+		if l.Address == a && !strings.Contains(l.Name, ":") {
 			set[l.Name] = true
 		}
 	}
